@@ -1,6 +1,7 @@
 /* The count word of the futex semaphore under rely/guarantee, the assumed
    contract of futex(2) and a monotone clock. */
 #include "vp_sem.h"
+#include "vp_clock.h"
 #include <stdarg.h>
 #include <linux/futex.h>
 #include <sys/syscall.h>
@@ -15,6 +16,7 @@ void vp_sem_init_ghost (int role) {
 	vp_s = z;
 	vp_s.role = role;
 	vp_s.wake_after_post = 1;
+	vp_clock_reset ();
 }
 
 static void sem_interfere (nsync_atomic_uint32_ *p) {
@@ -72,8 +74,8 @@ long vp_syscall_futex (long number, int *uaddr, int op, int val, const struct ti
 	vp_s.futex_timedout = 0;
 	{
 		uint32_t r = vp_nondet_u32 () % 4;
-		if (vp_s.kernel_prompt && ts != NULL && vp_s.clock_valid && *(uint32_t *) uaddr == (uint32_t) val &&
-		    (ts->tv_sec < vp_s.clock.tv_sec || (ts->tv_sec == vp_s.clock.tv_sec && ts->tv_nsec <= vp_s.clock.tv_nsec))) {
+		if (vp_s.kernel_prompt && ts != NULL && vp_clk.valid && *(uint32_t *) uaddr == (uint32_t) val &&
+		    (ts->tv_sec < vp_clk.last.tv_sec || (ts->tv_sec == vp_clk.last.tv_sec && ts->tv_nsec <= vp_clk.last.tv_nsec))) {
 			r = 3;   /* VP-ASSUMED: an absolute futex timeout that has already expired yields ETIMEDOUT at once */
 		}
 		if (r == 0) return 0;
@@ -81,25 +83,8 @@ long vp_syscall_futex (long number, int *uaddr, int op, int val, const struct ti
 		if (r == 2 || ts == NULL) { errno = EAGAIN; return -1; }
 		errno = ETIMEDOUT;
 		vp_s.futex_timedout = 1;
-		vp_s.clock_reads_after_timeout = 0;
+		vp_s.reads_at_timeout = vp_clk.reads;
 		return -1;
 	}
 }
 
-/* VP-ASSUMED: clock_gettime(CLOCK_REALTIME) is monotone within one call of the code under proof and returns a normalised time */
-int clock_gettime (clockid_t clk, struct timespec *ts) {
-	struct timespec t;
-	(void) clk;
-	t.tv_sec = vp_nondet_i64 ();
-	t.tv_nsec = vp_nondet_i64 ();
-	VP_ASSUME (t.tv_nsec >= 0 && t.tv_nsec < 1000000000L);
-	VP_ASSUME (t.tv_sec >= 0);   /* VP-ASSUMED: CLOCK_REALTIME reads at or after the epoch */
-	if (vp_s.clock_valid) {
-		VP_ASSUME (t.tv_sec > vp_s.clock.tv_sec || (t.tv_sec == vp_s.clock.tv_sec && t.tv_nsec >= vp_s.clock.tv_nsec));
-	}
-	vp_s.clock = t;
-	vp_s.clock_valid = 1;
-	vp_s.clock_reads_after_timeout++;
-	*ts = t;
-	return 0;
-}
